@@ -42,7 +42,7 @@ CLAIM = dict(
          "and compared (MapAdapter._partial_build's preference for the bound host), the map-level theorems cover host parts through dom_built.",
     design="6/C04")
 
-FIRST = ["r0", "r1", "r2", "r3", "r4", "r5", "users", "all", "pages", "x.y", "é", "a b"]
+FIRST = ["r0", "r1", "r2", "r3", "r4", "r5", "users", "all", "pages", "x.y", "é", "a b", "|", "a|b"]
 STR_VALUES = ["a", "abc", "a b", "é", "ü ö", "a;b", "a?b", "a#b", "50%", "%41", "a&b=c", "x+y", "日本", "😀", "@:!$'()*,", "a\\b", "<x>", "{y}", "~._-",
               "\t", "a\nb", "ab", "xyz", "k;v", "matrix;a=1;b=2", "(x)*'!$@+", "a:b", "a,b", ";x", "x;"]
 PATH_VALUES = ["a", "a/b", "x/y/z", "a b/c", "é/ü", "a;b/c?d", "50%/%41", "a//b", "a/b c/😀", "x#y/z", "a\nb/c", "a/b;c", "a/b;v=1/c;d",
@@ -110,7 +110,7 @@ def gen_conv_c04(rng) -> Conv:
     if r < 0.78:
         return Conv("f", signed=rng.random() < 0.4)
     if r < 0.88:
-        return Conv("a", items=tuple(rng.sample(c03.ANY_ITEMS + ["foo_bar", "A1"], rng.randint(1, 3))))
+        return Conv("a", items=tuple(rng.sample(c03.ANY_ITEMS_PLAIN + ["foo_bar", "A1"], rng.randint(1, 3))))
     return Conv("u")
 
 
